@@ -458,6 +458,9 @@ def unsolvable_at_root(ctx, crate, crs, tag):
                     ok, why = True, "From<Conflict> conversion"
                 elif any(isinstance(e, dict) and e.get("as") == "Unsolvable" for e in d.get("proj", [])):
                     ok, why = True, "re-wraps a matched Unsolvable"
+                elif d["k"] == "call" and any(isinstance(e, dict) and e.get("as") == "Err" for e in d.get("proj", [])) and \
+                        d["t"].get("f") and d["t"]["f"]["name"] in ("learn_from_conflict", "analyze"):
+                    ok, why = True, "hands on the Conflict a callee returned (the `?` + From<Conflict> written out)"
                 elif d["k"] == "call" and d["t"]["f"]["name"] == "analyze_unsolvable":
                     for c in cs:
                         if c.kind == "cmp" and c.op == "Eq" and c.b.get("k") == "const" and c.b.get("v") == 0:
